@@ -110,6 +110,11 @@ func (v *validation) contentType() {
 		}
 		if ct != "" && v.route.Consumer == nil {
 			cons, ok := v.route.Consumers[ct]
+			if !ok && len(v.result) == 0 && len(v.route.Consumes) > 0 {
+				// admitted through a wildcard entry ("type/*", "*/*"): the route's table is keyed by the
+				// consumes entries, the consumer is the one registered for the media type of the request
+				cons, ok = v.context.api.ConsumersFor([]string{ct})[ct]
+			}
 			if !ok {
 				v.result = append(v.result, errors.New(http.StatusInternalServerError, "no consumer registered for %s", ct))
 			} else {
